@@ -1245,7 +1245,8 @@ func genAdd(r *common.Rng, c *tcase) {
 	opt(1, 4, "name", "myname", "a+b", "n%20m", "")
 	opt(1, 5, "replication-min", "-1", "1", "2", "0", "x", "+3", "")
 	opt(1, 5, "replication-max", "-1", "1", "3", "5", "1.5", "")
-	opt(1, 10, "replication", "2", "-1", "zz")
+	opt(1, 8, "replication", "2", "-1", "3", "zz", "")
+	opt(1, 8, "mode", "recursive", "direct", "direct", "bogus", "")
 	opt(1, 8, "local", boolVals...)
 	opt(1, 10, "recursive", boolVals...)
 	opt(1, 10, "format", "", "unixfs", "unixfs", "zip")
